@@ -20,7 +20,7 @@ from contracts.common import implies, iff, forall_range, flat_offset, is_flat_co
 from contracts.C08_symbols import P_LSDV, P_LDDV
 
 from exactly_lib.type_val_deps.types.list_ import list_sdv, list_ddv
-from exactly_lib.type_val_deps.types.string_ import string_ddv
+from exactly_lib.type_val_deps.types.string_ import string_ddv, string_sdv
 from exactly_lib.util.symbol_table import SymbolTable
 from exactly_lib.symbol.sdv_structure import SymbolReference
 
@@ -85,3 +85,38 @@ M.contract(P_LSDV + ':ListSdv.references', params=dict(self=LIST_SDV),
 M.loop(P_LSDV + ':ListSdv.references', 0,
        invariant=lambda _i, self, ret_val: is_flat_concat(ret_val, self._elements, _i, references_piece),
        modifies=dict(ret_val=ListOf(Iface(RefI)), string_sdv='local'))
+
+
+# --- what the two real element classes report as `references` (the `references` attribute of ElementSdvI)
+
+class StringSdvRefsI(Interface):
+    """the string of a string element: known through the references it reports"""
+    target_class = string_sdv.StringSdv
+    attrs = {'references': ListOf(Iface(RefI))}
+
+
+M.contract(P_LSDV + ':StringElementSdv.references',
+           params=dict(self=Inst(list_sdv.StringElementSdv, _string_sdv=Iface(StringSdvRefsI))),
+           ensures={'the references of its string, in order': lambda self, result:
+           len(result) == len(self._string_sdv.references)
+           and forall_range(0, len(result), lambda k: result[k] is self._string_sdv.references[k])},
+           raises_only=())
+
+M.contract(P_LSDV + ':SymbolReferenceElementSdv.references',
+           params=dict(self=Inst(list_sdv.SymbolReferenceElementSdv, _symbol_reference=Iface(RefI))),
+           ensures={'exactly its one reference': lambda self, result:
+           len(result) == 1 and result[0] is self._symbol_reference},
+           raises_only=())
+
+M.contract(P_LSDV + ':SymbolReferenceElementSdv.symbol_reference_if_is_symbol_reference',
+           params=dict(self=Inst(list_sdv.SymbolReferenceElementSdv, _symbol_reference=Iface(RefI))),
+           ensures={'its reference': lambda self, result: result is self._symbol_reference}, raises_only=())
+
+M.contract(P_LSDV + ':StringElementSdv.symbol_reference_if_is_symbol_reference',
+           params=dict(self=Inst(list_sdv.StringElementSdv, _string_sdv=Any_)),
+           ensures={'none': lambda result: result is None}, raises_only=())
+
+M.assume('ElementSdv.resolve(symbols) / ElementSdv.references of the elements of a ListSdv (interface ElementSdvI) are '
+         'functions of the element (and the table): resolving an element neither changes the element nor the table '
+         '(frame obligations of StringElementSdv.resolve / SymbolReferenceElementSdv.resolve in C08_symbols.py; the '
+         'classes have no mutators)')
